@@ -131,7 +131,7 @@ def rule_r3(chk, db, methods):
         n += 1
         sl = flow.backward(b, t["args"][1], at=bi)
         from_check = cbi is not None and any(cb == cbi for cb, _, _ in sl.calls)
-        raw = sorted(f for a, f in sl.fields if a == "Range")
+        raw = sorted(f for a, f in sl.fields_full if a == "s3s::dto::range::Range")
         ok = from_check and not raw
         if not ok and raw == ["first"] and not from_check:
             # Range::check returns Int.first unchanged as the interval start (read off check's own MIR)
